@@ -216,6 +216,77 @@ func TestSchemas(t *testing.T) {
 
 type pcase struct {
 	Lines []string `json:"lines"`
+	// end-to-end scenarios: each is one send-all-match route with pickle-mode destinations; a
+	// destination gets the lines whose name has its prefix and does not have its notPrefix
+	Scen []pscen `json:"scen"`
+}
+
+type pscen struct {
+	S     int     `json:"s"`
+	Dests []pdest `json:"dests"`
+}
+
+type pdest struct {
+	Prefix    string `json:"prefix"`
+	NotPrefix string `json:"notprefix"`
+	IOBuf     int    `json:"iobuf"`
+	FlushMs   int    `json:"flushms"`
+}
+
+// pkEndpoint is a loopback listener that keeps every byte it receives
+type pkEndpoint struct {
+	ln    net.Listener
+	mu    sync.Mutex
+	got   []byte
+	conns []net.Conn // keep accepted connections referenced
+}
+
+func newPkEndpoint() (*pkEndpoint, error) {
+	ln, err := net.Listen("tcp", "127.0.0.1:0")
+	if err != nil {
+		return nil, err
+	}
+	e := &pkEndpoint{ln: ln}
+	go func() {
+		for {
+			c, err := ln.Accept()
+			if err != nil {
+				return
+			}
+			e.mu.Lock()
+			e.conns = append(e.conns, c)
+			e.mu.Unlock()
+			go func(c net.Conn) {
+				buf := make([]byte, 65536)
+				for {
+					n, err := c.Read(buf)
+					e.mu.Lock()
+					e.got = append(e.got, buf[:n]...)
+					e.mu.Unlock()
+					if err != nil {
+						return
+					}
+				}
+			}(c)
+		}
+	}()
+	return e, nil
+}
+
+// frames counts the complete length-prefixed frames received so far (polling only) and the bytes received
+func (e *pkEndpoint) frames() (int, int) {
+	e.mu.Lock()
+	defer e.mu.Unlock()
+	frames, off := 0, 0
+	for off+4 <= len(e.got) {
+		n := int(e.got[off])<<24 | int(e.got[off+1])<<16 | int(e.got[off+2])<<8 | int(e.got[off+3])
+		if off+4+n > len(e.got) {
+			break
+		}
+		off += 4 + n
+		frames++
+	}
+	return frames, len(e.got)
 }
 
 func TestPickle(t *testing.T) {
@@ -232,98 +303,155 @@ func TestPickle(t *testing.T) {
 	log := hx.NewLog(os.Getenv("VERIF_PK_TRACE"))
 	defer log.Close()
 
-	// (a) the encoder as the connection uses it: ParseDataPoint, then Pickle
+	// (a) the encoder as the connection uses it: ParseDataPoint, then Pickle.  Every returned
+	// message is recorded at once ("pk") and kept; all kept messages are recorded a second time
+	// after the last Pickle call ("pk2": what a holder finds in its message later on).
+	kept := make([][]byte, len(pc.Lines))
 	for i, ln := range pc.Lines {
 		dp, err := dest.ParseDataPoint([]byte(ln))
 		if err != nil {
 			log.Emit(map[string]interface{}{"ev": "pk", "i": i, "skipped": true, "err": err.Error()})
 			continue
 		}
-		log.Emit(map[string]interface{}{"ev": "pk", "i": i, "skipped": false, "frame": hex.EncodeToString(dest.Pickle(dp))})
+		kept[i] = dest.Pickle(dp)
+		log.Emit(map[string]interface{}{"ev": "pk", "i": i, "skipped": false, "frame": hex.EncodeToString(kept[i])})
+	}
+	for i, msg := range kept {
+		if msg != nil {
+			log.Emit(map[string]interface{}{"ev": "pk2", "i": i, "frame": hex.EncodeToString(msg)})
+		}
 	}
 
-	// (b) a real pickle-mode destination writing to a loopback listener
-	ln, err := net.Listen("tcp", "127.0.0.1:0")
-	if err != nil {
-		t.Fatal(err)
+	// (b) real pickle-mode destinations behind a send-all-match route writing to loopback listeners
+	for _, sc := range pc.Scen {
+		pickleScenario(out, log, pc.Lines, sc)
 	}
-	var mu sync.Mutex
-	var got []byte
-	var conns []net.Conn // keep accepted connections referenced
-	go func() {
-		for {
-			c, err := ln.Accept()
-			if err != nil {
-				return
-			}
-			mu.Lock()
-			conns = append(conns, c)
-			mu.Unlock()
-			go func(c net.Conn) {
-				buf := make([]byte, 65536)
-				for {
-					n, err := c.Read(buf)
-					mu.Lock()
-					got = append(got, buf[:n]...)
-					mu.Unlock()
-					if err != nil {
-						return
-					}
-				}
-			}(c)
-		}
-	}()
+}
+
+func pickleScenario(out string, log *hx.Log, lines []string, sc pscen) {
 	m, _ := matcher.New("", "", "", "", "", "")
-	rname := fmt.Sprintf("c16pk_%d_%d", hx.Seed(), os.Getpid())
-	d, err := dest.New(rname, m, ln.Addr().String(), filepath.Join(out, "spool"), false, true, 20*time.Millisecond, time.Second,
-		len(pc.Lines)+100, 4096, 100, 1000, 10, time.Second, time.Millisecond, time.Millisecond)
+	rname := fmt.Sprintf("c16pk_%d_%d_%d", hx.Seed(), os.Getpid(), sc.S)
+	type dstate struct {
+		ep               *pkEndpoint
+		d                *dest.Destination
+		bad, slow, down  func() int64
+		sent             []int
+		frames, nbytes   int
+		lastChange       time.Time
+		complete, online bool
+	}
+	var ds []*dstate
+	var dests []*dest.Destination
+	fail := func(why string) {
+		log.Emit(map[string]interface{}{"ev": "wireerr", "s": sc.S, "err": why})
+	}
+	for k, pd := range sc.Dests {
+		ep, err := newPkEndpoint()
+		if err != nil {
+			fail(err.Error())
+			return
+		}
+		dm, err := matcher.New(pd.Prefix, pd.NotPrefix, "", "", "", "")
+		if err != nil {
+			fail(err.Error())
+			return
+		}
+		d, err := dest.New(rname, dm, ep.ln.Addr().String(), filepath.Join(out, fmt.Sprintf("spool%d_%d", sc.S, k)), false, true,
+			time.Duration(pd.FlushMs)*time.Millisecond, time.Second, len(lines)+100, pd.IOBuf, 100, 1000, 10, time.Second, time.Millisecond, time.Millisecond)
+		if err != nil {
+			fail(err.Error())
+			return
+		}
+		st := &dstate{ep: ep, d: d}
+		for _, c := range []struct {
+			f    *func() int64
+			what string
+		}{{&st.bad, "bad_pickle"}, {&st.slow, "slow_conn"}, {&st.down, "conn_down_no_spool"}} {
+			cnt := stats.Counter("dest=" + d.Key + ".unit=Metric.action=drop.reason=" + c.what)
+			c0 := cnt.Count()
+			*c.f = func() int64 { return cnt.Count() - c0 }
+		}
+		ds = append(ds, st)
+		dests = append(dests, d)
+	}
+	rt, err := route.NewSendAllMatch(rname, m, dests) // runs the destinations
 	if err != nil {
-		t.Fatal(err)
+		fail(err.Error())
+		return
 	}
-	bad := stats.Counter("dest=" + d.Key + ".unit=Metric.action=drop.reason=bad_pickle")
-	slow := stats.Counter("dest=" + d.Key + ".unit=Metric.action=drop.reason=slow_conn")
-	down := stats.Counter("dest=" + d.Key + ".unit=Metric.action=drop.reason=conn_down_no_spool")
-	bad0, slow0, down0 := bad.Count(), slow.Count(), down.Count()
-	d.Run()
 	deadline := time.Now().Add(60 * time.Second)
-	for !d.Snapshot().Online && time.Now().Before(deadline) {
-		time.Sleep(5 * time.Millisecond)
-	}
-	online := d.Snapshot().Online
-	sent := 0
-	if online {
-		for _, l := range pc.Lines {
-			d.In <- []byte(l)
-			sent++
+	allOnline := false
+	for !allOnline && time.Now().Before(deadline) {
+		allOnline = true
+		for _, st := range ds {
+			st.online = st.d.Snapshot().Online
+			allOnline = allOnline && st.online
+		}
+		if !allOnline {
+			time.Sleep(5 * time.Millisecond)
 		}
 	}
-	// every line handed over is on the wire as a frame, or counted as dropped (observable condition)
-	deadline = time.Now().Add(120 * time.Second)
-	complete := false
-	for time.Now().Before(deadline) {
-		d.Flush()
-		mu.Lock()
-		frames, off := 0, 0
-		for off+4 <= len(got) {
-			n := int(got[off])<<24 | int(got[off+1])<<16 | int(got[off+2])<<8 | int(got[off+3])
-			if off+4+n > len(got) {
-				break
+	if allOnline {
+		for i, l := range lines {
+			b := []byte(l)
+			name := b
+			for j, ch := range b {
+				if ch == ' ' {
+					name = b[:j]
+					break
+				}
 			}
-			off += 4 + n
-			frames++
+			for _, st := range ds {
+				if st.d.Match(name) { // recorded: which destination the route handed line i to
+					st.sent = append(st.sent, i)
+				}
+			}
+			rt.Dispatch(b)
 		}
-		mu.Unlock()
-		if int64(frames)+(bad.Count()-bad0)+(slow.Count()-slow0)+(down.Count()-down0) >= int64(sent) {
-			complete = true
+	}
+	// every line handed over is on the wire as a frame, or counted as dropped (observable condition);
+	// the wait is given up when an endpoint has received nothing new for 20 s (or after 120 s)
+	start := time.Now()
+	for _, st := range ds {
+		st.lastChange = start
+	}
+	for {
+		done := true
+		for _, st := range ds {
+			if st.complete {
+				continue
+			}
+			st.d.Flush()
+			f, nb := st.ep.frames()
+			if nb != st.nbytes {
+				st.nbytes, st.lastChange = nb, time.Now()
+			}
+			st.frames = f
+			if int64(f)+st.bad()+st.slow()+st.down() >= int64(len(st.sent)) {
+				st.complete = true
+			} else if time.Since(st.lastChange) < 20*time.Second && time.Since(start) < 120*time.Second {
+				done = false
+			}
+		}
+		if done {
 			break
 		}
 		time.Sleep(10 * time.Millisecond)
 	}
-	mu.Lock()
-	wire := hex.EncodeToString(got)
-	mu.Unlock()
-	log.Emit(map[string]interface{}{"ev": "wire", "online": online, "sent": sent, "wire": wire, "complete": complete,
-		"bad_pickle": bad.Count() - bad0, "slow_conn": slow.Count() - slow0, "conn_down": down.Count() - down0})
-	go d.Shutdown()
-	ln.Close()
+	for k, st := range ds {
+		st.ep.mu.Lock()
+		wire := hex.EncodeToString(st.ep.got)
+		st.ep.mu.Unlock()
+		sent := st.sent
+		if sent == nil {
+			sent = []int{}
+		}
+		log.Emit(map[string]interface{}{"ev": "wire", "s": sc.S, "k": k, "ndests": len(ds), "online": st.online, "sent": sent, "wire": wire,
+			"complete": st.complete, "iobuf": sc.Dests[k].IOBuf,
+			"bad_pickle": st.bad(), "slow_conn": st.slow(), "conn_down": st.down()})
+	}
+	go rt.Shutdown()
+	for _, st := range ds {
+		st.ep.ln.Close()
+	}
 }
